@@ -220,6 +220,16 @@ def _strdup(ex, st, a, fr, ins):
     return q
 
 
+def _vasprintf(ex, st, a, fr, ins):
+    """vasprintf(&s, fmt, ap): formatting is not the subject - produce the one-character string "?" (contract: *strp is a
+    fresh heap string, return value = its length)"""
+    strp = _conc(ex, st, a[0], 'vasprintf strp')
+    q = _malloc(ex, st, [2], fr, ins, name='str')
+    st.mem.store(q, 0x003f, 2, _where(fr, ins))
+    st.mem.store(strp, q, 8, _where(fr, ins))
+    return 1
+
+
 def _strchr(ex, st, a, fr, ins):
     p = _conc(ex, st, a[0], 'strchr pointer')
     c = a[1]
@@ -340,7 +350,7 @@ STUBS = {
     'malloc': _malloc, 'calloc': _calloc, 'realloc': _realloc, 'free': _free, 'posix_memalign': _posix_memalign,
     'memset': _memset, 'memcpy': _memcpy, 'memmove': _memmove,
     'strlen': _strlen_stub, 'strcmp': _strcmp, 'strncmp': _strncmp, 'strcpy': _strcpy, 'strncpy': _strncpy,
-    'strdup': _strdup, 'strchr': _strchr, 'strstr': _strstr,
+    'strdup': _strdup, 'vasprintf': _vasprintf, 'strchr': _strchr, 'strstr': _strstr,
     'sprintf': _sprintf, 'snprintf': _snprintf,
     'abort': _abort, 'exit': _exit, '_exit': _exit,
     'orc_debug_print': _noop, 'orc_init': _noop, 'getenv': _null,
